@@ -588,7 +588,7 @@ func runC07(r *Run) {
 	r.Cases(10, r.N(4000, 40000), 0, c07Random)
 	// C07.6 on the real operator (taskHandleHookRun's combine decision): startup with grouped and
 	// ungrouped Synchronization tasks; the lines are those of the C04 suite, answered by the same model
-	r.CaseTimeout = 120 * time.Second
+	r.CaseTimeout = 300 * time.Second
 	r.One(2, func(c *Case, _ *Rng) {
 		c.Desc = "operator: onStartup + grouped/ungrouped Synchronization tasks (mixed allowFailure, executeHookOnSynchronization:false), then kubernetes events"
 		c.Nontrivial = true
